@@ -87,6 +87,27 @@ def run(chk: core.Check, n: int):
     if not okk.all():
         i = int(np.nonzero(~okk)[0][0])
         bad("helix_awk(momentum, position, charge, pivot) round trip", i, [float(arr2.dr[i]), float(arr2.phi0[i]), float(arr2.kappa[i]), float(arr2.dz[i])], [h["dr"][i], h["phi0"][i], h["kappa"][i], h["dz"][i]], "constructing a helix array from its own report reproduces it")
+    # keyword construction with integer-typed columns (tracks on the reference point: dr = [[0, 0], [0]]) and a common non-integer
+    # pivot given as tuple / vector object: pivot and position follow the documented formula for array and record kinds
+    m = min(n, 30)
+    for how in ("tuple", "vector"):
+        dri = np.rint(h["dr"][:m]).astype(np.int64); dzi = np.rint(h["dz"][:m]).astype(np.int32)
+        pv = tuple(float(x) for x in rng.uniform(-5, 5, 3) + 0.25)
+        cnt = [m - m // 2, m // 2]
+        mkn = lambda a: ak.unflatten(ak.Array(a), cnt)
+        ai = pybes3.helix_awk(dr=mkn(dri), phi0=mkn(h["phi0"][:m]), kappa=mkn(h["kappa"][:m]), dz=mkn(dzi), tanl=mkn(h["tanl"][:m]), pivot=(pv if how == "tuple" else vector.obj(x=pv[0], y=pv[1], z=pv[2])))
+        gp = [ak.to_numpy(ak.flatten(ai.pivot[c])).astype(float) for c in "xyz"]
+        gpos = [ak.to_numpy(ak.flatten(ai.position[c])).astype(float) for c in "xyz"]
+        want = [pv[0] + dri * np.cos(h["phi0"][:m]), pv[1] + dri * np.sin(h["phi0"][:m]), pv[2] + dzi]
+        rec = ai[0, 0]
+        rp = [float(rec.position.x), float(rec.position.y), float(rec.position.z)]
+        chk.count(m, key=f"int-dtype-{how}")
+        okp = all((gp[c] == pv[c]).all() for c in range(3)) and all(hc.close(gpos[c], want[c]).all() for c in range(3)) and all(hc.close(rp, [want[c][0] for c in range(3)]))
+        if not okp:
+            chk.failing_input("helix_awk(dr=<integer-typed>, ..., pivot=<non-integer " + how + ">): pivot / position", {"dr": dri.tolist()[:6], "dz": dzi.tolist()[:6], "dtypes": ["int64", "int32"], "pivot": list(pv), "nesting_counts": cnt},
+                              {"pivot": [float(gp[c][0]) for c in range(3)], "position_of_first_track": [float(gpos[c][0]) for c in range(3)], "record_position": rp},
+                              {"pivot": list(pv), "position_of_first_track": [float(want[c][0]) for c in range(3)]}, doc)
+            break
     # fromPhysics model vs implementation
     fp = hc.model_lines("fp", np.column_stack([ak.to_numpy(apos.x), ak.to_numpy(apos.y), ak.to_numpy(apos.z), ak.to_numpy(amom.pt), ak.to_numpy(amom.phi), ak.to_numpy(amom.pz), acharge.astype(float), h["piv"]]))
     okm = hc.close(fp[:, 0], ak.to_numpy(arr2.dr), atol=1e-9 * scale) & hc.circ_close(fp[:, 1], ak.to_numpy(arr2.phi0), 1e-9) & hc.close(fp[:, 2], ak.to_numpy(arr2.kappa)) & hc.close(fp[:, 3], ak.to_numpy(arr2.dz), atol=1e-9 * scale)
